@@ -222,6 +222,7 @@ var cliWitnesses = []cliCase{
 var cliNamePools = [][]string{
 	{"s0", "s1", "s2", "s3", "s4", "s5", "s6", "s7", "s8", "s9", "s10", "s11"},
 	{"Seq0000", "seq0000", "A|b/c.1", "sp#7", "x_y", "GAP", "1a", "N", "é", "s-1", "s0_0001", "X"},
+	{"iso50%GC", "cov100%", "%d", "a%sb", "%!v", "100%_id", "%%", "p%20q", "x%", "%x", "r%5.2f", "plain"}, // names are data, never a format
 	{"1", "2", "3", "4", "5", "6", "7", "8", "9", "10", "11", "12"},
 }
 
@@ -305,9 +306,9 @@ func genCli(r *gen.Rand, idx int) cliCase {
 		na = r.PickInt([]int{1, 2, 2, 3, 3})
 	}
 	nt := r.Chance(0.55)
-	pool := cliNamePools[r.PickInt([]int{0, 0, 1, 2})]
+	pool := cliNamePools[r.PickInt([]int{0, 0, 1, 2, 3})]
 	if strings.HasSuffix(k.Mode, "clustal") {
-		pool = cliNamePools[r.PickInt([]int{0, 2})] // the input file is written by goalign's own Clustal writer: plain names
+		pool = cliNamePools[r.PickInt([]int{0, 3})] // the input file is written by goalign's own Clustal writer: plain names
 	}
 	if k.Cmd == "dedup" {
 		k.NAsGap = (idx/3/len(modes))%2 == 0
